@@ -84,7 +84,7 @@ def gen_values(rng, n, vclass):
     if vclass == "int":
         return [float(rng.randint(-5, 5)) for _ in range(n)]
     if vclass == "huge":
-        return [rng.gauss(0, 1) * 1e300 for _ in range(n)]
+        return [rng.gauss(0, 1) * rng.choice([1e300, 6e307]) for _ in range(n)]
     if vclass == "const":
         c = rng.choice([0.0, 1.0, -2.5])
         return [c] * n
@@ -400,6 +400,10 @@ class Runner:
                 ctx.finding("sim/length", "output length differs from the innovation series", {**base, "n": n, "got": len(y)})
                 return
             case = {**base, "form": sform, "innov": innov}
+            if any(v != v for v in y):
+                self.stat("sim_runs_reaching_the_isnan_skip_of_the_lag_buffer")
+            elif any(math.isinf(v) for v in y):
+                self.stat("sim_runs_overflowing_to_inf")
             self.check_recursion(case, phi, rm, ri, e0, y)
             # defaults stand for explicit values
             if sform != "mi":
@@ -439,11 +443,11 @@ class Runner:
                                      {**case, "y": y}, r_back[1], e0, tol, mask=scale < 1e290)
 
             # sim_mean left at its default on BOTH calls (the docstring example of both functions)
-            if sform[0] == "d" and all(math.isfinite(v) for v in y):
+            with warnings.catch_warnings(), np.errstate(all="ignore"):
+                warnings.simplefilter("ignore")
+                nmy = float(np.mean(np.asarray(y))) if n else NAN
+            if sform[0] == "d" and all(math.isfinite(v) for v in y) and (n == 0 or math.isfinite(nmy)):
                 r_dd = self.call(self.am.armodel_residual, phi, y, self.pyargs(sform, m, ini))
-                with warnings.catch_warnings():
-                    warnings.simplefilter("ignore")
-                    nmy = float(np.mean(np.asarray(y))) if n else NAN
                 self.add(f"pyres {C.flist(phi)} {C.flist(y)} {C.f2h(nmy)} none {it}", r_dd, {**base, "form": sform, "inputs": y, "tag": tag},
                          f"residual_of_sim_default_mean/{ordtag}", nontriv, causes(phi, nmy, ri if sform == "di" else nmy))
                 dcase = {**base, "form": sform, "innov": innov, "y": y}
@@ -636,7 +640,7 @@ def body(ctx):
                 R.run(c)
 
     # structured stream: every order x coefficient vectors x lengths
-    nvec = ctx.scale(40, 400)
+    nvec = ctx.scale(100, 1000)
     for p in range(0, 12):
         for v in range(nvec):
             kind = PARAM_KINDS[v % len(PARAM_KINDS)]
